@@ -557,7 +557,7 @@ state, whatever the struct and the members hold), every operation (`read`/`chang
 assignment of either) with any oracle outcomes, with and without omission of unchanged updates: when the operation returned
 and a value of the struct parameter was announced during it, no member is in error state (or never announced) afterwards —
 a member that failed before is repaired together with the struct, whether or not its value differs from the one propagated
-last.  (Sequential operations; for overlapping operations this clause is checked by the monitor only.) -/
+last.  (`struct_update_recovers_members_overlapped`: the same for accesses that overlap with assignments of other threads.) -/
 theorem struct_update_recovers_members (cfg : Cfg) (s : St) (op : Op) :
     MembersRecovered cfg.members (sinfoOf (step1 cfg s op)) := by
   intro hok hann m hm
@@ -577,6 +577,31 @@ theorem struct_update_recovers_members_run (cfg : Cfg) (s0 : St) (ops : List Op)
   intro s hs
   obtain ⟨pre, op, post, _, rfl⟩ := mem_scan _ _ _ _ hs
   exact struct_update_recovers_members cfg _ op
+
+/-- **struct_update_recovers_members_overlapped** — the same for histories in which accesses overlap with driver-side
+assignments of other threads (`OOp`: any `Overlap` / `iv`, any values seen by cache reads): an access that returned and during
+which a value of the struct was announced — by the access itself or by an assignment of another thread that fell into it —
+leaves no member in error state. -/
+theorem struct_update_recovers_members_overlapped (cfg : Cfg) (s : St) (op : OOp) :
+    MembersRecovered cfg.members (sinfoOf (ostep1 cfg s op)) := by
+  intro hok hann m hm
+  have hq : Q cfg { s with evs := [], exc := none } := by
+    intro he; obtain ⟨d, hd⟩ := he; cases hd
+  have := q_ostep cfg _ op hq hok
+  refine this ?_ m hm
+  simp only [sinfoOf, List.any_eq_true] at hann
+  obtain ⟨e, he, hs⟩ := hann
+  cases e with
+  | struct d => exact ⟨d, he⟩
+  | mem m x => simp at hs
+
+/-- non-vacuity (per-member layout): `read_i` fails — `i` is in error state, the struct is not; a member-wise read of the
+struct into which an assignment of another thread falls repairs it -/
+example : (orun cfgB (init cfgB) [
+      .seq (.readMember "i" (.fail .secop) (.fail .value)),
+      .readStructO (.fail .secop) (fun _ => .ok 5) { atEnd := [.assignMember "p" 9] }]).map
+        (fun s => (s.ok, s.sP, s.mP, (sinfoOf s).announced)) =
+    [(false, false, ["i"], false), (true, false, [], true)] := by decide
 
 /-- non-vacuity (combined layout, the situation of a client reading a member during a communication failure): the read of
 `i` fails — the struct and `i` are in error state; the next read of the struct delivers the values it had before: the struct is
